@@ -1812,6 +1812,46 @@ def gen_combos(ctx):
         yield make_combo(role, 0x0304, 0x1301, "both", resume="psk", decline=True, tag="resume-declined", pay_seed=seed())
         yield make_combo(role, 0x0301, 0x002F, "both", resume="ticket", decline=True, tag="resume-declined", pay_seed=seed())
 
+    # G'. enumerated products: resumption x HelloRetryRequest x client authentication x ALPN, both roles.
+    #     The HelloRetryRequest is forced by a key-share / group mismatch and therefore happens on BOTH
+    #     connections, in particular on the resuming one (second ClientHello carries re-signed PSK binders;
+    #     an OpenSSL server sends no cookie, so pre_shared_key stays the last extension).
+    hrr_groups = ["secp384r1", "ffdhe2048"] if not thorough else ["secp256r1", "secp384r1", "secp521r1", "x448", "ffdhe2048", "ffdhe3072"]
+    auth_opts = (None, "client_ecdsa") if not thorough else (None, "client_ecdsa", "client_rsa")
+    alpn_opts = (None, ([b"h2", b"http/1.1"], [b"http/1.1", b"h2"]))
+    for g2 in hrr_groups:
+        ff2 = g2.startswith("ffdhe")
+        for sid in (0x1301, 0x1302, 0x1303):
+            for cc in auth_opts:
+                for al in alpn_opts:
+                    if not thorough and cc is not None and al is not None and sid != 0x1302:
+                        continue
+                    akw = {"alpn_tl": al[0], "alpn_os": al[1]} if al else {}
+                    # tlslite client: first share x25519, OpenSSL server only lists g2
+                    for nt in ((False, True) if (thorough or (cc is None and al is None)) else (False,)):
+                        yield make_combo("client", 0x0304, sid, "both", resume="psk", client_cred=cc, tag="resume-hrr",
+                                         pay_seed=seed(),
+                                         tl_extra={"curves": ["x25519"] + (["secp256r1"] if cc == "client_ecdsa" else []) + ([] if ff2 else [g2]),
+                                                   "dhgroups": [g2] if ff2 else [], "keyshares": ["x25519"]},
+                                         os_extra={"group": g2, "no_ticket": nt}, **akw)
+                    # OpenSSL client: first share x25519 (library default), tlslite server only lists g2
+                    yield make_combo("server", 0x0304, sid, "tl", resume="psk", client_cred=cc, tag="resume-hrr",
+                                     pay_seed=seed(),
+                                     tl_extra={"curves": ([] if ff2 else [g2]) + (["secp256r1"] if (cc == "client_ecdsa" and g2 != "secp256r1") else []),
+                                               "dhgroups": [g2] if ff2 else [], "keyshares": [g2]}, **akw)
+    # resumption x client authentication x ALPN for TLS <= 1.2 (session ID and ticket), and for TLS 1.3 without HRR
+    for role in ROLES:
+        for cc in auth_opts:
+            for al in alpn_opts:
+                if cc is None and al is None:
+                    continue          # family G
+                akw = {"alpn_tl": al[0], "alpn_os": al[1]} if al else {}
+                for mech in ("sid", "ticket"):
+                    for v, sid in ((0x0303, 0xC02F), (0x0303, 0x009D), (0x0301, 0xC014), (0x0302, 0x0033)) if thorough else ((0x0303, 0xC02F), (0x0301, 0xC014)):
+                        yield make_combo(role, v, sid, "both", resume=mech, client_cred=cc, tag="resume-product", pay_seed=seed(), **akw)
+                for sid in (0x1301, 0x1302, 0x1303) if thorough else (0x1303,):
+                    yield make_combo(role, 0x0304, sid, "both", resume="psk", client_cred=cc, tag="resume-product", pay_seed=seed(), **akw)
+
     # H. configurations that share no common parameters: both sides must fail
     for role in ROLES:
         for vt, vo in ((0x0304, 0x0303), (0x0303, 0x0304), (0x0301, 0x0303), (0x0303, 0x0301), (0x0302, 0x0304)):
@@ -1930,6 +1970,7 @@ def run(ctx):
                 "ALPN lists, resumption mechanism, payload sizes, which side is pinned); families: every mutual suite x "
                 "version x role; bulk transfer 0/1/100/16384/16385/50000 per record protection; groups incl. FFDHE and "
                 "HelloRetryRequest; key types; client auth; ALPN; session-ID / ticket / PSK resumption incl. declined; "
+                "enumerated products resumption x HelloRetryRequest x client auth x ALPN; "
                 "disjoint configurations; one-sided version pins; random points of the product. distinct = distinct "
                 "pair of configurations + mechanism + payload plan; non-trivial = a live handshake was attempted")
     ctx.assumptions = ["OpenSSL 3.0 (stdlib ssl, in-memory BIOs) is the independent implementation; its behaviour is observed, not proved",
@@ -1973,6 +2014,11 @@ def run(ctx):
                 ctx.count("live:%s/%s" % (c["tl_state"], c["os_state"]))
                 if c.get("wire", {}).get("hrr"):
                     ctx.count("live:hello-retry-request")
+        if cb["tag"] == "resume-hrr" and len(R.conns) == 2 and R.conns[1].get("tl_state") == "done":
+            if R.conns[1].get("wire", {}).get("hrr") and R.conns[1].get("os_resumed"):
+                ctx.count("live:resumed-after-hello-retry-request")
+            else:
+                R.notes.append("resume-hrr combination did not exercise HelloRetryRequest + resumption together")
         for n in R.notes:
             notes[n] = notes.get(n, 0) + 1
         report(ctx, cb, R)
